@@ -38,7 +38,8 @@ Inductive kind :=
 
 Record slot := {
   sl_is_return : bool; sl_name : str; sl_kind : kind; sl_raw_ctype : str;
-  sl_direction : direction; sl_caller_allocates : bool; sl_transfer : option transfer;
+  sl_direction : direction; sl_dir_unset : bool (* ast.Parameter.direction is still None, which the writer reads as "in" *);
+  sl_caller_allocates : bool; sl_transfer : option transfer;
   sl_nullable : bool; sl_not_nullable : bool; sl_optional : bool; sl_skip : bool;
   sl_scope : option str; sl_closure : option str; sl_destroy : option str;
   sl_attrs : list (str * str) }.
@@ -49,26 +50,27 @@ Inductive warning := WTransfer | WNullable | WOptional | WAllowNone | WScope | W
 (* record update helpers *)
 Definition with_kind (sl : slot) (k : kind) : slot :=
   {| sl_is_return := sl.(sl_is_return); sl_name := sl.(sl_name); sl_kind := k; sl_raw_ctype := sl.(sl_raw_ctype);
-     sl_direction := sl.(sl_direction); sl_caller_allocates := sl.(sl_caller_allocates); sl_transfer := sl.(sl_transfer);
+     sl_direction := sl.(sl_direction); sl_dir_unset := sl.(sl_dir_unset); sl_caller_allocates := sl.(sl_caller_allocates); sl_transfer := sl.(sl_transfer);
      sl_nullable := sl.(sl_nullable); sl_not_nullable := sl.(sl_not_nullable); sl_optional := sl.(sl_optional);
      sl_skip := sl.(sl_skip); sl_scope := sl.(sl_scope); sl_closure := sl.(sl_closure); sl_destroy := sl.(sl_destroy);
      sl_attrs := sl.(sl_attrs) |}.
-Definition with_dir (sl : slot) (d : direction) (ca : bool) (t : option transfer) : slot :=
+Definition with_dir_u (sl : slot) (d : direction) (u : bool) (ca : bool) (t : option transfer) : slot :=
   {| sl_is_return := sl.(sl_is_return); sl_name := sl.(sl_name); sl_kind := sl.(sl_kind); sl_raw_ctype := sl.(sl_raw_ctype);
-     sl_direction := d; sl_caller_allocates := ca; sl_transfer := t;
+     sl_direction := d; sl_dir_unset := u; sl_caller_allocates := ca; sl_transfer := t;
      sl_nullable := sl.(sl_nullable); sl_not_nullable := sl.(sl_not_nullable); sl_optional := sl.(sl_optional);
      sl_skip := sl.(sl_skip); sl_scope := sl.(sl_scope); sl_closure := sl.(sl_closure); sl_destroy := sl.(sl_destroy);
      sl_attrs := sl.(sl_attrs) |}.
-Definition with_transfer (sl : slot) (t : option transfer) : slot := with_dir sl sl.(sl_direction) sl.(sl_caller_allocates) t.
+Definition with_dir (sl : slot) (d : direction) (ca : bool) (t : option transfer) : slot := with_dir_u sl d false ca t.
+Definition with_transfer (sl : slot) (t : option transfer) : slot := with_dir_u sl sl.(sl_direction) sl.(sl_dir_unset) sl.(sl_caller_allocates) t.
 Definition with_null (sl : slot) (nullable not_nullable optional skip : bool) (attrs : list (str * str)) : slot :=
   {| sl_is_return := sl.(sl_is_return); sl_name := sl.(sl_name); sl_kind := sl.(sl_kind); sl_raw_ctype := sl.(sl_raw_ctype);
-     sl_direction := sl.(sl_direction); sl_caller_allocates := sl.(sl_caller_allocates); sl_transfer := sl.(sl_transfer);
+     sl_direction := sl.(sl_direction); sl_dir_unset := sl.(sl_dir_unset); sl_caller_allocates := sl.(sl_caller_allocates); sl_transfer := sl.(sl_transfer);
      sl_nullable := nullable; sl_not_nullable := not_nullable; sl_optional := optional;
      sl_skip := skip; sl_scope := sl.(sl_scope); sl_closure := sl.(sl_closure); sl_destroy := sl.(sl_destroy);
      sl_attrs := attrs |}.
 Definition with_cb (sl : slot) (scope closure destroy : option str) : slot :=
   {| sl_is_return := sl.(sl_is_return); sl_name := sl.(sl_name); sl_kind := sl.(sl_kind); sl_raw_ctype := sl.(sl_raw_ctype);
-     sl_direction := sl.(sl_direction); sl_caller_allocates := sl.(sl_caller_allocates); sl_transfer := sl.(sl_transfer);
+     sl_direction := sl.(sl_direction); sl_dir_unset := sl.(sl_dir_unset); sl_caller_allocates := sl.(sl_caller_allocates); sl_transfer := sl.(sl_transfer);
      sl_nullable := sl.(sl_nullable); sl_not_nullable := sl.(sl_not_nullable); sl_optional := sl.(sl_optional);
      sl_skip := sl.(sl_skip); sl_scope := scope; sl_closure := closure; sl_destroy := destroy;
      sl_attrs := sl.(sl_attrs) |}.
@@ -246,7 +248,8 @@ Definition common_types (e : env) (sl0 : slot) (a : annots) : slot * list warnin
                     end in
   let sl2 := match annotated_direction sl1 a with
              | Some (d, ca) =>
-                 if dir_eqb d sl1.(sl_direction) then sl1
+                 (* "annotated_direction != node.direction": an explicit (in) differs from a direction that is still None *)
+                 if dir_eqb d sl1.(sl_direction) && negb sl1.(sl_dir_unset) then sl1
                  else with_dir sl1 d ca (if sl1.(sl_is_return) then sl1.(sl_transfer) else Some (param_transfer d ca))
              | None => sl1
              end in
@@ -341,7 +344,7 @@ Definition init_param (e : env) (is_cbtype : bool) (d : decl) : slot :=
   let ct := source_type d.(d_tree) true in
   let k := kind_of_gtype e (type_of_ctype ct false) in
   {| sl_is_return := false; sl_name := d.(d_name); sl_kind := k; sl_raw_ctype := ct;
-     sl_direction := DIn; sl_caller_allocates := false; sl_transfer := Some (param_transfer DIn false);
+     sl_direction := DIn; sl_dir_unset := true; sl_caller_allocates := false; sl_transfer := Some (param_transfer DIn false);
      sl_nullable := false; sl_not_nullable := false; sl_optional := false; sl_skip := false;
      sl_scope := None;
      sl_closure := if is_cbtype && is_fund k "gpointer" && str_eqb d.(d_name) (s "user_data") then Some d.(d_name) else None;
@@ -350,7 +353,7 @@ Definition init_return (e : env) (t : ctree) : slot :=
   let ct := source_type t false in
   let g := type_of_ctype ct true in
   {| sl_is_return := true; sl_name := []; sl_kind := kind_of_gtype e g; sl_raw_ctype := ct;
-     sl_direction := DOut; sl_caller_allocates := false; sl_transfer := return_transfer e g (base_is_const t);
+     sl_direction := DOut; sl_dir_unset := false; sl_caller_allocates := false; sl_transfer := return_transfer e g (base_is_const t);
      sl_nullable := false; sl_not_nullable := false; sl_optional := false; sl_skip := false;
      sl_scope := None; sl_closure := None; sl_destroy := None; sl_attrs := [] |}.
 
@@ -372,8 +375,9 @@ Definition any_names (ps : list slot) : list str :=
 Definition ann_of (d : option annots) : annots := match d with Some a => a | None => [] end.
 
 Definition set_scope_notified (p : slot) : slot := with_cb p (Some (s "notified")) p.(sl_closure) p.(sl_destroy).
-Definition follow_direction (d : direction) (p : slot) : slot :=
-  with_dir p d p.(sl_caller_allocates) (if dir_eqb d DOut then Some TFull else p.(sl_transfer)).
+(* param.direction = node.direction: the array's direction is copied as it is, a still-unset one included *)
+Definition follow_direction (d : direction) (u : bool) (p : slot) : slot :=
+  with_dir_u p d u p.(sl_caller_allocates) (if dir_eqb d DOut then Some TFull else p.(sl_transfer)).
 
 (* one parameter: [is_cbtype] = the callable is a callback type rather than a function *)
 Definition step_param (fx : bool) (e : env) (is_cbtype : bool) (st : list slot * list (nat * warning)) (ia : nat * annots)
@@ -393,7 +397,7 @@ Definition step_param (fx : bool) (e : env) (is_cbtype : bool) (st : list slot *
       | Some sl1 =>
           let '(sl2, w2, lside) := apply_common fx e sl1 a in
           let ps2 := set_nth i sl2 ps1 in
-          let ps3 := match lside with Some n => on_named n (follow_direction sl2.(sl_direction)) ps2 | None => ps2 end in
+          let ps3 := match lside with Some n => on_named n (follow_direction sl2.(sl_direction) sl2.(sl_dir_unset)) ps2 | None => ps2 end in
           (ps3, ws ++ map (fun w => (i, w)) (w1 ++ w2))
       end
   end.
@@ -464,6 +468,6 @@ Definition run_callable (fx : bool) (e : env) (is_cbtype : bool) (ds : list decl
                      | None => ([], [])
                      end in
   let '(r1, wr, lside) := apply_common fx e r0 ra1 in
-  let ps2 := match lside with Some n => on_named n (follow_direction DOut) ps1 | None => ps1 end in
+  let ps2 := match lside with Some n => on_named n (follow_direction DOut false) ps1 | None => ps1 end in
   let '(ps3, throws) := pass3 (map (restore e) ps2) in
   {| r_params := ps3; r_ret := restore e r1; r_throws := throws; r_warn := ws; r_ret_warn := wr0 ++ wr |}.
